@@ -203,6 +203,9 @@ class Driver:
         self.load(f1, "direct")
         s2 = self.construct(c)
         self.load_onto(s2, f1)
+        # and the other way round: a file written from a default object loaded onto the object holding the non-default value
+        f2 = self.save(self.construct(c))
+        self.load_onto(s1, f2)
 
     def process(self, o):
         obj = self.live[o]
@@ -411,15 +414,19 @@ def main():
     # lists vs arrays, tuples) through save / load / load onto a default object
     import inspect
     sv = [("azimuths_in_degrees", np.array([0.0, 22.5, 45.0, 67.5, 112.5])), ("azimuths_in_degrees", [0.25, 30.5, 91.75]),
-          ("filter_corner_frequencies_in_hz", [0.25, 12.5]), ("window_type_and_width", ["tukey", 0.35])]
+          ("filter_corner_frequencies_in_hz", [0.25, 12.5]), ("window_type_and_width", ["tukey", 0.35]),
+          # scalar attributes, in particular values that are "falsy" in Python (0.0, None, False) where the default is not
+          ("azimuth_in_degrees", 0.0), ("ppth_percentile_for_rotdpp_computation", 0.0), ("window_length_in_seconds", None),
+          ("detrend", None), ("differentiate", True), ("orient_to_degrees_from_north", None), ("ignore_dissimilar_time_step_warning", True),
+          ("handle_dissimilar_time_steps_by", "keeping_smallest_time_step"), ("method_to_combine_horizontals", "squared_average")]
     k_ = 0
     for c in CLASSES:
         params = inspect.signature(getattr(h, c).__init__).parameters
         for attr, value in sv:
-            if attr not in params:
-                continue
+            if attr not in params or (attr == "method_to_combine_horizontals" and c != "HvsrTraditionalProcessingSettings"):
+                continue        # (the sub-classes fix the method; passing another one makes an object of a different kind)
             k_ += 1
-            if run.quick and attr != "azimuths_in_degrees" and (k_ + run.seed) % 3:
+            if run.quick and attr not in ("azimuths_in_degrees", "azimuth_in_degrees", "ppth_percentile_for_rotdpp_computation") and (k_ + run.seed) % 3:
                 continue
             d = Driver(h, rng, wd, recs)
             d.pristine()
